@@ -431,7 +431,11 @@ class Interp:
         gc = self.world.global_cache
         gc[key] = _INPROGRESS
         saved = (self.stack, self.oracle)
+        # import-time code runs as the package runs it: none of the summaries / hooks of the analysis in progress apply
+        hooks = {k: getattr(self, k) for k in ("summaries", "loop_hooks", "while_hooks", "class_hooks") if hasattr(self, k)}
         try:
+            for k, v in hooks.items():
+                setattr(self, k, type(v)())
             self.stack = []
             ntrace = len(self.oracle.trace)
             fr = Frame(None, m2, {})
@@ -450,6 +454,8 @@ class Interp:
                 raise AnalysisError(f"{m2.relpath}: `{name}` not bound by its module-level statements")
             return fr.env[name]
         finally:
+            for k, v in hooks.items():
+                setattr(self, k, v)
             self.stack = saved[0]
             if gc.get(key) is _INPROGRESS:
                 del gc[key]
@@ -1100,6 +1106,11 @@ class Interp:
                 raise AnalysisError(f"{self.where(st)}: for/else over a symbolic sequence outside the fragment")
             return self.exec_sym_for(st, it, fr)
         items = self.iter_concrete(it, st)
+        chook = self.loop_hooks.get("concrete")
+        if chook is not None and not st.orelse:
+            r = chook(self, st, items, fr)
+            if r is not NotImplemented:
+                return r
         broke = False
         for x in items:
             self.assign(st.target, x, fr)
@@ -1490,6 +1501,10 @@ class Interp:
                 # the exact type of a symbolic value (an int may be a bool or a subclass …) is not known: both outcomes
                 ty, other = (a, b) if isinstance(a, Term) and a.op == "type" else (b, a)
                 r = Term("type_is", (ty.args[0], getattr(other, "qual", None) or getattr(other, "qualname", None) or repr(other)), "bool")
+            elif a is not b and any(hasattr(x, "v_identity") for x in (a, b)) and \
+                    (lambda s_, o_: s_.v_identity(o_, self))(*((a, b) if hasattr(a, "v_identity") else (b, a))) is not NotImplemented:
+                s_, o_ = (a, b) if hasattr(a, "v_identity") else (b, a)
+                r = s_.v_identity(o_, self)
             elif a is not b and not any(isinstance(x, (bool, ClassInfo)) or x is None for x in (a, b)) and \
                     any(is_sym(x) or isinstance(x, AbstractValue) or (isinstance(x, (tuple, list)) and _has_abstract(x)) for x in (a, b)):
                 fnlike = lambda x: isinstance(x, (HashFn, External, FuncRef, IdentityFn)) or type(x).__name__ in ("HashFn", "IdentityFn")
